@@ -158,6 +158,20 @@ let handle_parse (pre : bool) (toks : string list) : string =
   let cmds = if pre then parse_pre_fix text else parse text in
   String.concat "|" (List.map render_ucode cmds)
 
+let render_stripped (u : ucode) : string =
+  Printf.sprintf "%s,%s,%s,%s"
+    (ZZ.to_string (zz_of_n u.ty)) (ZZ.to_string (zz_of_n u.hc)) (ZZ.to_string (zz_of_n u.dc)) (dotted (area_debug u.ar))
+let handle_parsespec (toks : string list) : string =
+  let text = match toks with [] -> [] | t :: _ -> cps_of_field t in
+  let t = decompose text in
+  (if valid t && list_eq_dec N.eq_dec (flatten t) text then "" else "INVALID-DECOMPOSITION|")
+  ^ String.concat "|" (List.map render_ucode (abstract t))
+let handle_reparse (toks : string list) : string =
+  let text = match toks with [] -> [] | t :: _ -> cps_of_field t in
+  let cmds = parse text in
+  let again = parse (List.concat (List.map (fun u -> u.raw) cmds)) in
+  String.concat "|" (List.map render_stripped cmds) ^ "#" ^ String.concat "|" (List.map render_stripped again)
+
 let () =
   try
     while true do
@@ -169,6 +183,8 @@ let () =
           | "num" :: rest -> handle_num rest
           | "parse" :: rest -> handle_parse false rest
           | "parsepre" :: rest -> handle_parse true rest
+          | "parsespec" :: rest -> handle_parsespec rest
+          | "reparse" :: rest -> handle_reparse rest
           | _ -> "bad:layer"
         with Bad m -> "bad:" ^ m | Stack_overflow -> "bad:stack" in
       print_string out; print_newline ()
